@@ -147,7 +147,46 @@ func c04Edits(t *rapid.T, w *kit.World, tag string) []kit.Line {
 			out = append(out, kit.Line{K: '%', Loc: lo, CIDR: cidr, MapID: m, TTL: -1})
 		}
 	}
+	// subnets of the default map (no map id): that map applies only to names that
+	// have no resolver ('M') map, so for every name that has one they are subnets
+	// "of a map that does not apply to the queried name" (c04Run compares only
+	// those names for such a variant)
+	if rapid.IntRange(0, 2).Draw(t, tag+"-defmap") == 0 {
+		have := map[string]bool{}
+		canon := func(c string) string {
+			ip, n, _, ok := kit.ParseSubnet(c)
+			if !ok {
+				return c
+			}
+			return fmt.Sprintf("%s/%d", ip, n)
+		}
+		for _, l := range w.Lines {
+			if l.K == '%' && l.MapID == "" {
+				have[canon(l.CIDR)] = true
+			}
+		}
+		nd := rapid.IntRange(1, 3).Draw(t, tag+"-ndef")
+		for i := 0; i < nd; i++ {
+			cidr := rapid.SampledFrom([]string{"0.0.0.0/0", "::/0", "10.0.0.0/8", "10.0.0.1/32", "2001:db8::/32", "2001:db8::1/128", "192.0.2.0/24"}).Draw(t, tag+"-defcidr")
+			if have[canon(cidr)] {
+				continue
+			}
+			have[canon(cidr)] = true
+			lo := rapid.SampledFrom([]string{"l1", "l2", "La", foreignLoc}).Draw(t, tag+"-defloc")
+			out = append(out, kit.Line{K: '%', Loc: lo, CIDR: cidr, MapID: "", TTL: -1})
+		}
+	}
 	return out
+}
+
+// touchesDefaultMap: the variant adds subnets to the default map.
+func touchesDefaultMap(edits []kit.Line) bool {
+	for _, e := range edits {
+		if e.K == '%' && e.MapID == "" {
+			return true
+		}
+	}
+	return false
 }
 
 func sortStrings(s []string) {
@@ -188,6 +227,7 @@ func c04Run(t kit.Fataler, base *kit.World, variants [][]kit.Line, qs []c01Q, re
 	for _, e := range variants {
 		worlds = append(worlds, withEdits(base, e))
 	}
+	maps := base.Maps()
 	ac := addrCounts(base)
 	weighted := func(section, owner string, typ uint16) bool {
 		return section == "additional" && ac[fmt.Sprintf("%s/%d", owner, typ)] > 1
@@ -223,6 +263,21 @@ func c04Run(t kit.Fataler, base *kit.World, variants [][]kit.Line, qs []c01Q, re
 				norms = append(norms, n)
 			}
 			for vi := 1; vi < len(norms); vi++ {
+				if touchesDefaultMap(variants[vi-1]) {
+					// the default map does apply to a name without a resolver map
+					if _, found := kit.MapFor(maps, 'M', x.q.Name); !found {
+						if bi == 0 {
+							kit.Class("default-map-edit:applies-to-name(not compared)")
+						}
+						continue
+					}
+					if bi == 0 {
+						kit.Class("default-map-edit:off-path")
+						if x.c.ECS != nil {
+							kit.Class("default-map-edit:off-path+ecs")
+						}
+					}
+				}
 				if norms[vi] != norms[0] {
 					c := c04Case{Base: base, Edits: variants[vi-1], Variant: string(worlds[vi].Text()), Query: x.q, Client: x.c, Backend: b.String(), Answers: []string{norms[0], norms[vi]}}
 					kind := "record-edit"
